@@ -30,6 +30,9 @@ pub struct FileMeta {
     pub gid: u8,
     /// pre-existing destination: (mode 0..0777, mtime index, length)
     pub prior: Option<(u16, u8, u32)>,
+    /// owner of the pre-existing destination (indices into IDS)
+    #[serde(default)]
+    pub prior_owner: Option<(u8, u8)>,
 }
 
 #[derive(Clone, Debug, Serialize, Deserialize)]
@@ -50,6 +53,9 @@ pub struct Case {
     /// further options that must not matter: bit0 --fsync, bit1 --backup=numbered, bit2 --reflink=never, bit3 -v
     #[serde(default)]
     pub extra: u8,
+    /// the destination directory d/s is set-group-ID with this group (index into IDS): new files inherit it
+    #[serde(default)]
+    pub setgid_dir: Option<u8>,
 }
 
 fn mode_strategy() -> BoxedStrategy<u16> {
@@ -75,8 +81,10 @@ fn file_meta() -> BoxedStrategy<FileMeta> {
         0..IDS.len() as u8,
         0..IDS.len() as u8,
         prop::option::weighted(0.4, (0u16..0o1000, 0..MTIMES.len() as u8, 0u32..10000)),
+        prop::option::weighted(0.5, (0..IDS.len() as u8, 0..IDS.len() as u8)),
+        prop::bool::weighted(0.3),
     )
-        .prop_map(|(len, mode, mtime, xattrs, uid, gid, prior)| FileMeta { len, mode, mtime, xattrs, uid, gid, prior })
+        .prop_map(|(len, mode, mtime, xattrs, uid, gid, prior, prior_owner, same_id)| FileMeta { len, mode, mtime, xattrs, uid, gid: if same_id { uid } else { gid }, prior, prior_owner })
         .boxed()
 }
 
@@ -93,8 +101,9 @@ pub fn strategy() -> BoxedStrategy<Case> {
         prop::option::weighted(0.1, any::<u64>()),
         prop::bool::weighted(0.25),
         prop_oneof![3 => Just(0u8), 2 => 0u8..16],
+        prop::option::weighted(0.2, 0..IDS.len() as u8),
     )
-        .prop_map(|(files, no_perms, no_timestamps, ownership, umask, parblock, workers, block, starve, single, extra)| Case { files, no_perms, no_timestamps, ownership, umask, parblock, workers, block, starve, single, extra })
+        .prop_map(|(files, no_perms, no_timestamps, ownership, umask, parblock, workers, block, starve, single, extra, setgid_dir)| Case { files, no_perms, no_timestamps, ownership, umask, parblock, workers, block, starve, single, extra, setgid_dir })
         .boxed()
 }
 
@@ -113,8 +122,13 @@ pub fn umask_of(c: &Case) -> u32 {
 
 pub fn ents_for(c: &Case) -> Vec<Ent> {
     let mut ents = vec![Ent::dir(b"s"), Ent::dir(b"d")];
-    if c.single || c.files.iter().any(|f| f.prior.is_some()) {
-        ents.push(Ent::dir(b"d/s"));
+    if c.single || c.setgid_dir.is_some() || c.files.iter().any(|f| f.prior.is_some()) {
+        let mut d = Ent::dir(b"d/s");
+        if let Some(g) = c.setgid_dir {
+            d.mode = Some(0o2775);
+            d.owner = Some((0, IDS[g as usize % IDS.len()]));
+        }
+        ents.push(d);
     }
     for (i, f) in c.files.iter().enumerate() {
         let mut e = Ent::file(format!("s/f{}", i).as_bytes(), Content::data(f.len as u64, i as u8));
@@ -143,6 +157,9 @@ pub fn ents_for(c: &Case) -> Vec<Ent> {
             let mut p = Ent::file(format!("d/s/f{}", i).as_bytes(), Content::data(pl as u64, 30 + i as u8));
             p.mode = Some(pm as u32);
             p.mtime = Some(MTIMES[pt as usize % MTIMES.len()]);
+            if let Some((pu, pg)) = f.prior_owner {
+                p.owner = Some((IDS[pu as usize % IDS.len()], IDS[pg as usize % IDS.len()]));
+            }
             ents.push(p);
         }
     }
@@ -257,7 +274,7 @@ pub fn judge(c: &Case, rec: &mut Rec) -> Verdict {
             if f.prior.is_some() { "overwrite" } else { "fresh" },
             if multi { "multiblock" } else { "1block" },
             if c.starve.is_some() { "starved" } else { "plain-run" }
-        ) + if c.single { "|single-file" } else { "" } + if c.extra != 0 { "|extra-opts" } else { "" };
+        ) + if c.setgid_dir.is_some() { "|setgid-destdir" } else { "" } + if f.prior_owner.is_some() && f.prior.is_some() { "|prior-owner" } else { "" } + if c.single { "|single-file" } else { "" } + if c.extra != 0 { "|extra-opts" } else { "" };
         let new = rec.class(key);
         let subsec = MTIMES[f.mtime as usize % MTIMES.len()].1 != 0;
         if special || subsec || !f.xattrs.is_empty() || c.ownership || multi {
@@ -345,6 +362,6 @@ impl Check for C10 {
         }
     }
     fn required_classes(&self, _tier: Tier) -> Vec<String> {
-        ["special4000", "special2000", "special1000", "mode0", "|xattr|", "|overwrite|", "multiblock", "starved", "|P", "T", "O|", "umask0|", "umask77|", "single-file", "extra-opts"].iter().map(|s| s.to_string()).collect()
+        ["special4000", "special2000", "special1000", "mode0", "|xattr|", "|overwrite|", "multiblock", "starved", "|P", "T", "O|", "umask0|", "umask77|", "single-file", "extra-opts", "setgid-destdir", "prior-owner"].iter().map(|s| s.to_string()).collect()
     }
 }
